@@ -345,7 +345,9 @@ func (ch c19) runConn(c *core.Ctx, env *hs.Env, cfg c19cfg, ending string, rng *
 	if ending != "eof" && cfg.Hook {
 		wantTerm = 1
 	}
-	if got := st.term.Load(); got != wantTerm {
+	// the property speaks about Terminate messages only: what the hook does when a connection ends
+	// without one (EOF) is not judged
+	if got := st.term.Load(); got != wantTerm && ending != "eof" {
 		viol("terminate-hook", fmt.Sprintf("terminate hook ran %d time(s), expected %d (%s)", got, wantTerm, ending), "")
 		return
 	}
